@@ -240,6 +240,23 @@ impl Target for PoolTarget {
                 );
                 self.note(4, u.0);
             }
+            o @ ("union1" | "union3" | "union4") => {
+                // members by position (a, 3 - a): <<a>>, <<a, 3-a, a>>, <<a, a, 3-a, a>>;
+                // b = 1: an iterator with an exact size hint, b = 2: one without
+                let x = VersionSetId(self.bulk + a - 1);
+                let y = VersionSetId(self.bulk + (3 - a) - 1);
+                let rest: Vec<VersionSetId> = match o {
+                    "union1" => vec![],
+                    "union3" => vec![y, x],
+                    _ => vec![x, y, x],
+                };
+                let u = if b == 1 {
+                    self.pool.intern_version_set_union(x, rest.into_iter())
+                } else {
+                    self.pool.intern_version_set_union(x, rest.into_iter().filter(|_| true))
+                };
+                self.note(4, u.0);
+            }
             o => panic!("unknown op {o}"),
         }
         self.obs()
@@ -554,14 +571,20 @@ pub fn pool_histories(args: &[String]) {
                     ret = id.0 as i64;
                 }
                 "union" => {
-                    let k = rng.range(1, 4);
+                    let k = rng.range(1, 6);
                     for _ in 0..k {
                         ms.push(rng.below(t.n[2] as u64) as u32);
                     }
-                    let id = t.pool.intern_version_set_union(
-                        VersionSetId(ms[0]),
-                        ms[1..].iter().map(|&m| VersionSetId(m)),
-                    );
+                    // the members arrive through an iterator that knows its length, or one
+                    // that does not
+                    let id = if rng.chance(0.5) {
+                        t.pool.intern_version_set_union(VersionSetId(ms[0]), ms[1..].iter().map(|&m| VersionSetId(m)))
+                    } else {
+                        t.pool.intern_version_set_union(
+                            VersionSetId(ms[0]),
+                            ms[1..].iter().filter(|_| true).map(|&m| VersionSetId(m)),
+                        )
+                    };
                     t.note(4, id.0);
                     ret = id.0 as i64;
                 }
